@@ -8,13 +8,19 @@
     lock.rs:50-59   Drop for ObjectLock removes the file: runs on every exit path of the
                     scope that owns the guard (return Ok, `?`/return Err, unwinding panic).
                     = the [Running (Done out)] -> [Finished] step, for every [out].
-    repo.rs:574, 633, 736, 806, 864, 944, 962, 1159  (547, 606, 701, 763, 821, 901, 919, 1110 at the
+    repo.rs:600, 659, 773, 843, 901, 981, 999, 1195  (547, 606, 701, 763, 821, 901, 919, 1110 at the
                     revision of properties.jsonl)
                     `let _lock = self.get_lock_manager()?.acquire(object_id)?;` is the first
                     statement that touches the object in create_object, copy_files_internal,
                     move_files_internal, remove_files, reset, commit, upgrade_object and
                     operate_on_external_source (cp/mv of external files); the guard lives to
                     the end of the function.  = every operation is  acquire o ; body ; release o.
+                    ONE guard per operation: no function of the list drops the guard early, calls
+                    another function of the list (they would refuse each other: the lock is not
+                    reentrant) or takes the lock a second time; upgrade_object (repo.rs:989-1035)
+                    ends with the private commit_inner under the guard it took at repo.rs:999.
+                    = [pc] has exactly one way through Waiting -> Running -> Finished, and the
+                    per-operation automaton [ob_step] / [one_bracket] below says so on traces.
     (reset_all, repo.rs:836, and purge_object, repo.rs:521, take no lock: they are not
     operations of this model, and not in the property's list.)
 
@@ -44,6 +50,10 @@ Inductive result := RRet (o : outcome) | RLock.
     KAcq = successful create_new of the lock file, KFail = failed create_new,
     KMut = any mutating call below the object's staged or main root, KRel = unlink of the lock file *)
 Inductive evkind := KAcq | KMut | KRel | KFail.
+
+(** state of the per-operation automaton [ob_step]: no event yet / between its acquire and its
+    release / closed (released, or refused): a closed operation emits nothing any more *)
+Inductive phase := PFresh | PInside | PClosed.
 
 Section LockModel.
   Variables oid key data : Type.
@@ -205,6 +215,71 @@ Section LockModel.
     | [] => Some h
     | e :: r => match wb_step h e with Some h' => wb_run h' r | None => None end
     end.
+
+  (** the STRICT per-operation automaton ("one bracket"): the events of ONE operation, whose lock key is
+      [k], must spell   Acq k ; (Mut k)* ; Rel k   and then nothing (or, for a refused operation, the single
+      event Fail k and then nothing): the lock is taken exactly once, every mutation of the operation lies
+      between that acquire and the matching release, and no event of the operation follows the release -
+      in particular no second acquire.  (The automaton [wb_step] alone accepts (Acq Mut* Rel)* per
+      operation.) *)
+  Definition ob_step (k : key) (ph : phase) (e : ev) : option phase :=
+    if key_eqb (ev_key e) k then
+      match ph, ev_kind e with
+      | PFresh, KAcq => Some PInside
+      | PFresh, KFail => Some PClosed
+      | PInside, KMut => Some PInside
+      | PInside, KRel => Some PClosed
+      | _, _ => None
+      end
+    else None.
+
+  Fixpoint ob_run (k : key) (ph : phase) (es : list ev) : option phase :=
+    match es with
+    | [] => Some ph
+    | e :: r => match ob_step k ph e with Some ph' => ob_run k ph' r | None => None end
+    end.
+
+  (** the events of operation i *)
+  Definition proj (i : nat) (es : list ev) : list ev := filter (fun e => Nat.eqb (ev_tid e) i) es.
+
+  Definition one_bracket (k : key) (i : nat) (es : list ev) : option phase := ob_run k PFresh (proj i es).
+
+  (** where the program counter of an operation says its automaton must be *)
+  Definition phase_of (p : option pc) : phase :=
+    match p with
+    | Some (Running _) => PInside
+    | Some (Finished _) => PClosed
+    | _ => PFresh
+    end.
+
+  (** the same as an explicit shape (what [one_bracket] accepts, see Proofs/LockBracketFacts.v) *)
+  Definition op_shape (i : nat) (k : key) (p : pc) (tr : list ev) : Prop :=
+    match p with
+    | Waiting => tr = []
+    | Running _ => exists n, tr = mkEv i KAcq k :: repeat (mkEv i KMut k) n
+    | Finished RLock => tr = [mkEv i KFail k]
+    | Finished (RRet _) => exists n, tr = mkEv i KAcq k :: repeat (mkEv i KMut k) n ++ [mkEv i KRel k]
+    end.
+
+  (** the strict trace automaton on a whole (interleaved) trace = the lock-table automaton [wb_run]
+      AND one [one_bracket] automaton per operation; [ks] = the lock key of operation 0, 1, ...;
+      an event of an operation outside [ks] is rejected.
+      [strict_ok]: acceptable so far (prefix);  [strict_done]: acceptable as the trace of a run in which
+      every operation returned: no lock held, no operation between its acquire and its release. *)
+  Definition tids_known (n : nat) (es : list ev) : bool := forallb (fun e => Nat.ltb (ev_tid e) n) es.
+
+  Definition brackets (ks : list key) (es : list ev) : list (option phase) :=
+    map (fun ik => one_bracket (snd ik) (fst ik) es) (combine (seq 0 (length ks)) ks).
+
+  Definition strict_ok (ks : list key) (es : list ev) : bool :=
+    match wb_run [] es with Some _ => true | None => false end
+    && tids_known (length ks) es
+    && forallb (fun r => match r with Some _ => true | None => false end) (brackets ks es).
+
+  Definition strict_done (ks : list key) (es : list ev) : bool :=
+    match wb_run [] es with Some [] => true | _ => false end
+    && tids_known (length ks) es
+    && forallb (fun r => match r with Some PFresh => true | Some PClosed => true | _ => false end) (brackets ks es).
 
 End LockModel.
 
